@@ -818,6 +818,11 @@ impl Scanner for EntryScanner<'_> {
                                 .expect("failed to make root name"));
                         }
                     }
+                    // Any other label that ends right where it began is
+                    // an empty label inside or at the end of the name.
+                    if write == start + 1 {
+                        return Err(EntryError::bad_name());
+                    }
                     if write > 254 {
                         return Err(EntryError::bad_name());
                     }
